@@ -139,10 +139,52 @@ pub fn candidates(s: &Scenario) -> Vec<Scenario> {
             out.push(n);
         }
     }
-    for i in 0..s.tasks.len() {
-        let keep: Vec<usize> = (0..s.tasks.len()).filter(|k| *k != i).collect();
+    // tasks: first whole chunks (halves, quarters, …), then one at a time
+    let nt = s.tasks.len();
+    let mut chunk = nt / 2;
+    while chunk >= 2 {
+        let mut start = 0;
+        while start < nt {
+            let end = (start + chunk).min(nt);
+            let keep: Vec<usize> = (0..nt).filter(|k| *k < start || *k >= end).collect();
+            if let Some(n) = retain_tasks(s, &keep) {
+                out.push(n);
+            }
+            start = end;
+        }
+        chunk /= 2;
+    }
+    for i in 0..nt {
+        let keep: Vec<usize> = (0..nt).filter(|k| *k != i).collect();
         if let Some(n) = retain_tasks(s, &keep) {
             out.push(n);
+        }
+    }
+    // inputs: unused ones go; map inputs lose fields
+    for i in 0..s.inputs.len() {
+        if s.inputs.len() > 1 && !s.tasks.iter().any(|t| t.input == i) {
+            let mut n = s.clone();
+            n.inputs.remove(i);
+            for t in n.tasks.iter_mut() {
+                if t.input > i {
+                    t.input -= 1;
+                }
+            }
+            out.push(n);
+        }
+        if let InputSpec::Val(XV::M(fields)) = &s.inputs[i] {
+            if !fields.is_empty() {
+                let mut n = s.clone();
+                n.inputs[i] = InputSpec::Val(XV::M(vec![]));
+                out.push(n);
+                for f in 0..fields.len() {
+                    let mut n = s.clone();
+                    if let InputSpec::Val(XV::M(ff)) = &mut n.inputs[i] {
+                        ff.remove(f);
+                    }
+                    out.push(n);
+                }
+            }
         }
     }
     if !s.faults.is_empty() {
